@@ -203,7 +203,15 @@ func c06Run(u *Universe, wc *WorkerCache, seq []c06Op) (viol []string, outcome s
 			_ = w.DS.TransactionConfirm(context.Background(), "fresh")
 		}
 	}
-	res = verifrt.Run(func(p *verifrt.Point) int { return 0 }, 20000, nil, main)
+	// sequential semantics: a thread continues whenever one can; timers fire only through FireTimers (wait-for-timeout)
+	res = verifrt.Run(func(p *verifrt.Point) int {
+		for i, c := range p.Enabled {
+			if c.Thread >= 0 {
+				return i
+			}
+		}
+		return 0
+	}, 20000, nil, main)
 	viol = append(viol, resultProblems(res)...)
 	if res.Horizon {
 		viol = append(viol, "livelock:horizon: the sequence did not finish within 20000 scheduling points")
